@@ -13,6 +13,7 @@ SEEDS = [
     'rule l { strings: $s1 = "x" xor(1-3) fullword $s2 = "yz" base64 condition: for all i in (1..#s1) : ( @s1[i] + 2 < filesize and uint16(@s1[i]) == 0x5a4d ) and any of ($s*) in (0..100) }',
     'include "inc.yar"\nrule uses_inc { condition: inc_rule and ext_i + 1 > 2 and ext_s contains "a" and ext_s matches /a.c/ }',
     'rule nest { condition: for any i in (1,2,3) : ( for any j in (1..2) : ( for any k in (0..1) : ( for any m in (0..1) : ( i + j + k + m > 0 ) ) ) ) }',
+    'rule cls { strings: $a = /x[\\x80-\\xff]+[^\\x00-\\x1f][a-\\xff]y/ $b = /[\\x00-\\xff]{2}z[\\xfe-\\xff]/ nocase wide condition: $a or $b or ext_s matches /^[\\x7f-\\xff]*$/ }',
     'rule arith { condition: (1 + 2 * 3 \\ 4 % 5 - -6) >> 1 << 2 | 3 & 4 ^ ~5 == 0 or not defined uint8(filesize) or 10 of them }',
 ]
 
